@@ -22,7 +22,7 @@ def build(ctx: RunCtx) -> Prop:
         pid=PID, title="J(id) := final, or available and queued, or PENDING/RUNNING with an owner - proved at every exit (normal and exceptional) of "
                        "registration, claiming, reroute, retry, kill-and-reroute and the two recovery tasks, for all states satisfying J at entry",
         level="other", technique="contract-based deductive verification of the no-stranding invariant at the exits of the real lifecycle functions (AST->z3 VCs)",
-        registry=reg, verify=verify, lemmas=c03_more.lemmas(T, reg, G, ctx),
+        registry=reg, verify=verify, lemmas=c03_more.lemmas(T, reg, G, ctx), bounded=c03_more.bounded(),
         replayers={"*get_additional_invocations_to_run/raises:InvocationStatusError:undeclared-exception*": replay_poll_raises},
         assumptions=GLUE_ASSUMPTIONS + ["recovery notices PENDING (timeout scan) and RUNNING under a dead owner (heartbeat scan): C04"],
         trusted_base=GLUE_TRUSTED,
